@@ -143,6 +143,7 @@ type Conn struct {
 	reqout chan *SrvReq
 	rchan  chan *Fcall
 	done   chan bool
+	closed bool // set by close(): no fid is bound to the table any more
 
 	// stats
 	nreqs   int    // number of requests processed by the server
@@ -161,6 +162,7 @@ type SrvFid struct {
 	sync.Mutex
 	fid       uint32
 	refcount  int
+	bound     bool        // True while the connection's fid table holds a reference of its own
 	opened    bool        // True if the SrvFid is opened
 	Fconn     *Conn       // Connection the SrvFid belongs to
 	Omode     uint8       // Open mode (O* flags), if the fid is opened
@@ -527,5 +529,33 @@ func (fid *SrvFid) DecRef() {
 
 	if fop, ok := (conn.Srv.ops).(SrvFidOps); ok {
 		fop.FidDestroy(fid)
+	}
+}
+
+// Gives the fid table a reference of its own to the fid: the fid stays valid
+// after the request that created it is done. After the connection closed no
+// fid is bound any more (the fid then goes away with its last user).
+func (fid *SrvFid) bind() {
+	conn := fid.Fconn
+	conn.Lock()
+	if !conn.closed {
+		fid.Lock()
+		if !fid.bound {
+			fid.bound = true
+			fid.refcount++
+		}
+		fid.Unlock()
+	}
+	conn.Unlock()
+}
+
+// Drops the fid table's own reference, if it (still) has one.
+func (fid *SrvFid) unbind() {
+	fid.Lock()
+	b := fid.bound
+	fid.bound = false
+	fid.Unlock()
+	if b {
+		fid.DecRef()
 	}
 }
